@@ -128,6 +128,54 @@ func main() {
 			overlay[path] = dst
 		}
 	}
+	// ownership audit (maps mode): every gonum package the repository reaches must either be instrumented or be free
+	// of map iteration; otherwise an order source would stay native without anybody noticing
+	if *mode == "maps" {
+		instrumented := map[string]bool{"gonum.org/v1/gonum/graph/iterator": true}
+		for _, p := range pkgs {
+			instrumented[p.PkgPath] = true
+		}
+		seen := map[string]bool{}
+		var audit func(p *packages.Package)
+		audit = func(p *packages.Package) {
+			if seen[p.PkgPath] {
+				return
+			}
+			seen[p.PkgPath] = true
+			if strings.HasPrefix(p.PkgPath, "gonum.org/v1/gonum/") && !instrumented[p.PkgPath] {
+				for _, f := range p.Syntax {
+					ast.Inspect(f, func(n ast.Node) bool {
+						if rs, ok := n.(*ast.RangeStmt); ok {
+							if tv, ok := p.TypesInfo.Types[rs.X]; ok {
+								if _, isMap := tv.Type.Underlying().(*types.Map); isMap {
+									fatal("%s: package %s is reached by the repository, iterates a map and is not instrumented", p.Fset.Position(rs.Pos()), p.PkgPath)
+								}
+							}
+						}
+						return true
+					})
+				}
+			}
+			for _, ip := range p.Imports {
+				if strings.HasPrefix(ip.PkgPath, "gonum.org/v1/gonum/") || strings.HasPrefix(ip.PkgPath, repoMod) {
+					audit(ip)
+				}
+			}
+		}
+		for _, p := range pkgs {
+			if strings.HasPrefix(p.PkgPath, repoMod) {
+				audit(p)
+			}
+		}
+		audited := []string{}
+		for k := range seen {
+			if strings.HasPrefix(k, "gonum.org/") {
+				audited = append(audited, k)
+			}
+		}
+		sort.Strings(audited)
+		report["gonum_packages_reached"] = audited
+	}
 	// static overlay files
 	for src, dst := range staticOverlays(*mode) {
 		overlay[src] = dst
